@@ -106,6 +106,11 @@ def main(argv):
         for l in r["tail"]:
             print("         ", l[:400], flush=True)
         results.append(dict(r, caught=caught, what=m.get("what", ""), source=m["source"]))
+        if m["source"] == "seeded":
+            sid = m["id"].split("@")[0]
+            json.dump({"command": f"run.py selftest-sensitivity --only {sid}  (patch applied to a scratch copy of /repo/src, quick tier of {m['property']} aimed at it via VERIF_REPO_SRC)",
+                       "exit": r["exit"], "caught": caught, "wall_s": r["wall"], "violations": r["lines"]},
+                      open(os.path.join(HERE, "seeded", sid, "last_check.json"), "w"), indent=1)
     os.makedirs(os.path.join(HERE, "out"), exist_ok=True)
     json.dump(results, open(os.path.join(HERE, "out", "sensitivity.json"), "w"), indent=1)
     print(f"sensitivity: {sum(r['caught'] for r in results)}/{len(results)} caught, {missed} unexpected misses")
